@@ -36,7 +36,8 @@ RULE = ("life: calls are made through hass.services.async_call or by a script (s
         "run under one subsystem and alternates legacy/new.  Scenario families besides the hazards: overlap, owner, answers (falsy dicts), "
         "answers-not-dict, binding (two triples of parameter lists x 8 data dicts x with/without response x Home Assistant / "
         "script / overlapping), names (three services incl. foreign domains + trigger + yaml doc strings on one function); "
-        "four oracle-only probes with names that differ only in letter case.  out: entry point x subsets of {context, blocking, "
+        "five probes per subsystem with names that differ only in letter case (two functions; a redefinition; "
+        "another context; one function naming both spellings and a spelling of the built-in pyscript.reload - the last two oracle only).  out: entry point x subsets of {context, blocking, "
         "return_response, limit, plain} with right-typed, wrong-typed and falsy-but-wrong-typed values (0, '', None, {}, 0.0) "
         "x target supports_response.  "
         "Non-trivial = at least one registration; distinct by payload.")
@@ -47,6 +48,7 @@ ASSUMPTIONS = [
     "the evaluator name 'file.x.func' is never also the name of a global context",
     "python's binding of keyword arguments to a parameter list (required given, no unknown keyword unless **kwargs) - the model's bindOK states it, CPython performs it",
     "a definition is identified by the 'gen N' text in its doc string (so every generated function has a non-empty doc string)",
+    "str.lower() is modelled on ASCII letters (Char.toLower); service names in the runs are ASCII",
 ]
 TRUSTED = ["harness/run_C12.py (script generation, wrappers around Function.service_register/service_remove and "
            "ServiceRegistry.async_call for observation, canonicalisation, the Python rendering of the declaration rules)",
@@ -496,8 +498,8 @@ def hazard_cases(rng, legacy):
 
 
 def probe_cases(legacy):
-    """names that differ only in case: Home Assistant's registry lower-cases them, so they are ONE service (oracle only:
-    the model's tables are keyed by the name as written)"""
+    """names that differ only in case: Home Assistant's registry lower-cases them, so they are ONE service – and so they
+    are for the model since the repair of C12-F9 (the key of the count table is the lower-cased name)"""
     out = []
     calls = [{"k": "call", "svc": "pyscript.case1", "rr": False, "data": {"x": 1}}]
     out.append({"kind": "life", "legacy": legacy, "probe": "case-variant", "svcs": ["pyscript.case1"], "ops": [
@@ -505,9 +507,23 @@ def probe_cases(legacy):
                                            {"var": "g", "gen": 2, "decl": [["pyscript.case1", "none"]]}]}] + calls + [
         {"k": "rundel", "ctx": "a", "fn": "opA", "var": "f"}] + calls + [{"k": "unload", "ctx": "a"}] + calls})
     out.append({"kind": "life", "legacy": legacy, "probe": "case-variant-one-function", "svcs": ["pyscript.case1"], "ops": [
-        {"k": "load", "ctx": "a", "defs": [{"var": "f", "gen": 1, "decl": [["pyscript.Case1", "none"], ["pyscript.case1", "none"]]}]}]
+        {"k": "load", "ctx": "a", "defs": [{"var": "f", "gen": 1, "decl": [["pyscript.Case1", "none"]]}]}]
         + calls + [{"k": "rundef", "ctx": "a", "fn": "opA", "var": "f", "gen": 2, "decl": [["pyscript.CASE1", "optional"]]}] + calls + [
         {"k": "rundel", "ctx": "a", "fn": "opA", "var": "f"}] + calls})
+    # another context declares another spelling of a name it does not own: refused, the owner keeps the service
+    out.append({"kind": "life", "legacy": legacy, "probe": "case-variant-owner", "svcs": ["pyscript.case1"], "ops": [
+        {"k": "load", "ctx": "a", "defs": [{"var": "f", "gen": 1, "decl": [["pyscript.Case1", "none"]]}]},
+        {"k": "load", "ctx": "b", "defs": [{"var": "g", "gen": 2, "decl": [["pyscript.CASE1", "none"]]}]}] + calls + [
+        {"k": "unload", "ctx": "b"}] + calls + [{"k": "unload", "ctx": "a"}] + calls})
+    # ONE function naming both spellings (oracle only: the code counts the service twice and gives it back twice, the
+    # model - whose holders remember keys - counts it once; Home Assistant sees the same either way)
+    out.append({"kind": "life", "legacy": legacy, "probe": "case-variant-twice", "svcs": ["pyscript.case1"], "oracle_only": True, "ops": [
+        {"k": "load", "ctx": "a", "defs": [{"var": "f", "gen": 1, "decl": [["pyscript.Case1", "none"], ["pyscript.case1", "none"]]}]}]
+        + calls + [{"k": "rundel", "ctx": "a", "fn": "opA", "var": "f"}] + calls})
+    # a spelling variant of a BUILT-IN service name (pyscript.reload): `@service` must refuse it like the name itself
+    out.append({"kind": "life", "legacy": legacy, "probe": "builtin-case", "svcs": ["pyscript.reload"], "oracle_only": True, "ops": [
+        {"k": "load", "ctx": "a", "defs": [{"var": "f", "gen": 1, "decl": [["pyscript.Reload", "none"]]}]},
+        {"k": "rundel", "ctx": "a", "fn": "opA", "var": "f"}]})
     return out
 
 
@@ -728,8 +744,13 @@ def run_life(p):
         return orig_reg(cls, ctxname, domain, service, callback, supports_response, **kw)
 
     def rem(cls, ctxname, domain, service):
-        events.append(["rem", cls.service_cnt.get(f"{domain}.{service}", 0), f"{domain}.{service}", ctxname])
-        return orig_rem(cls, ctxname, domain, service)
+        # "reached with count 0" = the call gives no registration back, under whatever key service_remove computes
+        before = dict(cls.service_cnt)
+        try:
+            return orig_rem(cls, ctxname, domain, service)
+        finally:
+            gave_back = any(before.get(k, 0) > v for k, v in cls.service_cnt.items())
+            events.append(["rem", 1 if gave_back else 0, f"{domain}.{service}", ctxname])
 
     ops = p["ops"]
     svcs = p.get("svcs", SVCS)
@@ -941,7 +962,7 @@ def run_impl(cases):
             p["_obs"] = r["obs"]
             if p["kind"] == "life":
                 c.impl = render_life_impl(p)
-                c.line = None if p.get("probe") else life_line(p)
+                c.line = None if p.get("oracle_only") else life_line(p)
             else:
                 c.impl = render_out_impl(p)
                 c.line = out_line(p)
@@ -973,7 +994,7 @@ def life_line(p):
             dops.append(["scall" if o.get("via") == "script" else "call", o["svc"], 1 if o["rr"] else 0, "CTX",
                          sorted([kk, canon(vv)] for kk, vv in o["data"].items())])
     sigs = [[g, SIGS[sg]["required"], SIGS[sg]["params"], SIGS[sg]["extra"]] for g, sg in sorted(sig_map(p).items())]
-    return "C12 " + sx(["life", "legacy" if p["legacy"] else "new", SVCS, sigs, dops])
+    return "C12 " + sx(["life", "legacy" if p["legacy"] else "new", p.get("svcs", SVCS), sigs, dops])
 
 
 def render_life_impl(p):
@@ -1111,6 +1132,16 @@ def judge_life(p):
     d = Decls()
     bad = []
     sigs = sig_map(p)
+    if p.get("probe") == "builtin-case":
+        # pyscript's own service must stay what it is: `@service` refuses the built-in names
+        for i, st in enumerate(p["_obs"]):
+            for key, has, _cnt, _own, gen, _resp in st.get("state", []):
+                if not has:
+                    bad.append((i, {key}, "builtin-removed", f"step {i}: the built-in service {key} is gone"))
+                elif gen != -1:
+                    bad.append((i, {key}, "builtin-replaced", f"step {i}: the built-in service {key} is now handled by "
+                                                              f"the script function of definition {gen}"))
+        return bad
     for i, (o, st) in enumerate(zip(p["ops"], p["_obs"])):
         if o["k"] not in ("call", "calls"):
             apply_op(d, o)
